@@ -70,6 +70,7 @@ func (s *Sim) deliver(f *Flight) {
 		}
 	}
 	f.Deliveries++
+	s.deliveries++
 	if f.M.GetType() == pb.MsgSnap {
 		s.Net.markSnapDelivered(f)
 	}
@@ -615,6 +616,9 @@ func (s *Sim) Crash(n *Node, partialAppend, loseUnsynced bool) {
 	s.Stats.inc("crash")
 	s.crashInternal(n)
 }
+
+// RestartRange is restartRange for scripted scenarios.
+func (s *Sim) RestartRange(n *Node) (lo, hi uint64) { return s.restartRange(n) }
 
 // restartRange returns the legal range for Config.Applied on restart.
 func (s *Sim) restartRange(n *Node) (lo, hi uint64) {
